@@ -236,6 +236,12 @@ async fn multi_key_shapes() -> Acc {
         ("EVAL three keys last differs", vec![b"EVAL".to_vec(), b"GETALL".to_vec(), b"3".to_vec(), k(&a1), k(&a2), k(&c)], false),
         ("BLPOP two slots", vec![b"BLPOP".to_vec(), k(&a1), k(&b), b"1".to_vec()], false),
         ("BLPOP three keys last differs", vec![b"BLPOP".to_vec(), k(&a1), k(&a2), k(&c), b"1".to_vec()], false),
+        ("BRPOP two slots", vec![b"BRPOP".to_vec(), k(&a1), k(&b), b"1".to_vec()], false),
+        ("BRPOPLPUSH two slots one node", vec![b"BRPOPLPUSH".to_vec(), k(&a1), k(&b), b"1".to_vec()], false),
+        ("BRPOPLPUSH two nodes", vec![b"BRPOPLPUSH".to_vec(), k(&a1), k(&c), b"1".to_vec()], false),
+        ("BRPOPLPUSH local source, remote destination", vec![b"BRPOPLPUSH".to_vec(), k(&a1), k(&d), b"1".to_vec()], false),
+        ("BZPOPMIN two slots", vec![b"BZPOPMIN".to_vec(), k(&a1), k(&b), b"1".to_vec()], false),
+        ("BZPOPMAX two nodes", vec![b"BZPOPMAX".to_vec(), k(&a1), k(&c), b"1".to_vec()], false),
     ];
     for (name, c, allowed) in shapes {
         let mark = w.log_len();
